@@ -53,14 +53,6 @@ func shutdown(en *tl.Engine) {
 				}
 			}
 		}
-		// a task that ended its goroutine (runtime.Goexit) earlier; Wait() begun while a later task still runs
-		for _, c := range [][2]int{{2, 0}, {2, 1}, {3, 1}, {4, 2}} {
-			for k := 1; k < c[0]; k++ {
-				for lane := 0; lane < c[0]; lane++ {
-					en.GoexitShutdown(c[0], c[1], k, lane)
-				}
-			}
-		}
 		for v := 0; v < 3; v++ {
 			en.EmptyLane(v, v) // laneSize 0
 		}
@@ -70,6 +62,15 @@ func shutdown(en *tl.Engine) {
 		// back-to-back New/push/cancel/Wait on a single P, ~50 repetitions with several lanes
 		for i := 0; i < 51; i++ {
 			en.BackToBack(2+i%3, 1+(i/3)%3, i%3, i)
+		}
+	}
+	// last (a lane that never finishes its Wait() after a Goexit task ends the family, unjudged): a task that ended its
+	// goroutine with runtime.Goexit earlier; Wait() begun while a later task still runs
+	for _, c := range [][2]int{{2, 0}, {2, 1}, {3, 1}, {4, 2}} {
+		for k := 1; k < c[0]; k++ {
+			for lane := 0; lane < c[0]; lane++ {
+				en.GoexitShutdown(c[0], c[1], k, lane)
+			}
 		}
 	}
 }
